@@ -1,0 +1,131 @@
+//go:build verif
+
+package lexer
+
+// Contracts for the verifier in /verif (comment-only; compiled only with -tags verif).
+// charAt(l, p) is the p-th character of the input, or 0 past its end.  lexOK: the cursor is
+// consistent (position == readPosition - 1 >= 0); chOK: l.ch is the character under the cursor.
+
+//@ func (l *Lexer) readChar()
+//@   requires 0 <= l.readPosition
+//@   assumes nowrap: l.readPosition < 4611686018427387904 && l.line < 4611686018427387904 && l.column < 4611686018427387904
+//@   modifies l.ch, l.position, l.readPosition, l.line, l.column
+//@   ensures @C14 readchar.cursor: l.position == old(l.readPosition) && l.readPosition == old(l.readPosition) + 1 && l.ch == charAt(l, l.position)
+//@   ensures @C14 readchar.ok: lexOK(l) && chOK(l)
+//@   panics never
+
+//@ func (l *Lexer) peekChar() (result rune)
+//@   requires 0 <= l.readPosition
+//@   modifies nothing
+//@   ensures @C14 peekchar.def: result == charAt(l, l.readPosition)
+//@   panics never
+
+//@ func isDigit(ch rune) (result bool)
+//@   ensures @C14 isdigit.def: result == ('0' <= ch && ch <= '9')
+//@   panics never
+//@ func isWhitespace(ch rune) (result bool)
+//@   ensures @C14 iswhitespace.def: result == (ch == ' ' || ch == '\t' || ch == '\n' || ch == '\r')
+//@   panics never
+//@ func isIdentifier(ch rune) (result bool)
+//@   ensures @C14 isidentifier.def: result == (uniIsLetter(ch) || uniIsDigit(ch) || ch == '$' || ch == '_')
+//@   panics never
+
+//@ func (l *Lexer) newToken(tokenType token.Type, ch rune) (result token.Token)
+//@   modifies nothing
+//@   ensures @C14 newtoken.def: result.Type == tokenType && result.Literal == strFromRune(ch) && result.Line == l.line && result.Column == l.column
+//@   panics never
+
+// layout: whitespace is skipped up to the first other character (or the end of the input)
+//@ func (l *Lexer) skipWhitespace()
+//@   requires lexOK(l) && chOK(l)
+//@   modifies l.ch, l.position, l.readPosition, l.line, l.column
+//@   ensures @C14 skipws.stop: lexOK(l) && chOK(l) && !isWS(l.ch) && l.readPosition >= old(l.readPosition)
+//@   ensures @C14 skipws.onlyws: forall p in old(l.position)..l.position :: isWS(charAt(l, p))
+//@   panics never
+//@ loop 1 invariant skipws.inv: lexOK(l) && chOK(l) && l.readPosition >= entry(l.readPosition) && forall p in entry(l.position)..l.position :: isWS(charAt(l, p))
+//@ loop 1 decreases @C14 len(l.characters) + 1 - l.readPosition
+
+// comments: everything up to the end of the line (or of the input) is skipped, then whitespace
+//@ func (l *Lexer) skipComment()
+//@   requires lexOK(l) && chOK(l)
+//@   modifies l.ch, l.position, l.readPosition, l.line, l.column
+//@   ensures @C14 skipcomment.stop: lexOK(l) && chOK(l) && !isWS(l.ch) && l.readPosition >= old(l.readPosition)
+//@   ensures @C14 skipcomment.progress: old(l.ch) != '\n' && old(l.ch) != 0 ==> l.readPosition > old(l.readPosition)
+//@   panics never
+//@ loop 1 invariant skipcomment.inv: lexOK(l) && chOK(l) && l.readPosition >= entry(l.readPosition) && (l.readPosition == entry(l.readPosition) ==> l.ch == entry(l.ch))
+//@ loop 1 decreases @C14 len(l.characters) + 1 - l.readPosition
+
+// numbers: the maximal run of digits
+//@ func (l *Lexer) readNumber() (result string)
+//@   requires lexOK(l) && chOK(l)
+//@   modifies l.ch, l.position, l.readPosition, l.line, l.column
+//@   ensures @C14 readnumber.stop: lexOK(l) && chOK(l) && !('0' <= l.ch && l.ch <= '9') && l.readPosition >= old(l.readPosition)
+//@   ensures @C14 readnumber.digits: forall p in old(l.position)..l.position :: '0' <= charAt(l, p) && charAt(l, p) <= '9'
+//@   ensures @C14 readnumber.progress: ('0' <= old(l.ch) && old(l.ch) <= '9') ==> l.readPosition > old(l.readPosition)
+//@   panics never
+//@ loop 1 invariant readnumber.inv: lexOK(l) && chOK(l) && l.readPosition >= entry(l.readPosition) && (forall p in entry(l.position)..l.position :: '0' <= charAt(l, p) && charAt(l, p) <= '9')
+//@ loop 1 invariant readnumber.inv.progress: (l.readPosition == entry(l.readPosition)) ==> l.ch == entry(l.ch)
+//@ loop 1 decreases @C14 len(l.characters) + 1 - l.readPosition
+
+//@ func (l *Lexer) readIdentifier() (result string)
+//@   requires lexOK(l) && chOK(l)
+//@   modifies l.ch, l.position, l.readPosition, l.line, l.column
+//@   ensures @C14 readident.stop: lexOK(l) && chOK(l) && l.readPosition >= old(l.readPosition)
+//@   ensures @C14 readident.progress: len(result) > 0 ==> l.readPosition > old(l.readPosition)
+//@   panics never
+//@ loop 1 invariant readident.inv: lexOK(l) && chOK(l) && l.readPosition >= entry(l.readPosition) && (l.readPosition == entry(l.readPosition) ==> len(id) == 0)
+//@ loop 1 decreases @C14 len(l.characters) + 1 - l.readPosition
+
+//@ func (l *Lexer) readDecimal() (result token.Token)
+//@   requires lexOK(l) && chOK(l) && '0' <= l.ch && l.ch <= '9'
+//@   modifies l.ch, l.position, l.readPosition, l.line, l.column
+//@   ensures @C14 readdecimal.kind: (result.Type == token.INT || result.Type == token.FLOAT) && lexOK(l) && chOK(l) && l.readPosition > old(l.readPosition)
+//@   panics never
+
+// string literals: one character, one escape or one continuation per iteration (escape table of the
+// language: \n \r \t, any other escaped character stands for itself; backslash-newline adds nothing)
+//@ func (l *Lexer) readString(delim rune) (result string, err error)
+//@   requires lexOK(l) && chOK(l) && l.ch == delim && delim != 0
+//@   modifies l.ch, l.position, l.readPosition, l.line, l.column
+//@   ensures @C14 readstring.ok: lexOK(l) && chOK(l) && l.readPosition > old(l.readPosition)
+//@   ensures @C14 readstring.closed: err == nil ==> l.ch == delim
+//@   ensures @C13 @C14 readstring.unterminated: err != nil ==> l.ch == 0
+//@   panics never
+//@ loop 1 invariant readstring.inv: lexOK(l) && l.readPosition <= len(l.characters) && l.readPosition >= entry(l.readPosition)
+//@ loop 1 invariant readstring.inv.progress: l.readPosition > entry(l.readPosition) || out == ""
+//@ loop 1 step @C14 str.plain: charAt(l, old(l.readPosition)) != '\\' ==> out == old(out) + strFromRune(charAt(l, old(l.readPosition))) && l.readPosition == old(l.readPosition) + 1
+//@ loop 1 step @C14 str.continuation: charAt(l, old(l.readPosition)) == '\\' && charAt(l, old(l.readPosition) + 1) == '\n' ==> out == old(out) && l.readPosition == old(l.readPosition) + 2
+//@ loop 1 step @C14 str.escape: charAt(l, old(l.readPosition)) == '\\' && charAt(l, old(l.readPosition) + 1) != '\n' ==> out == old(out) + strFromRune(esc(charAt(l, old(l.readPosition) + 1))) && l.readPosition == old(l.readPosition) + 2
+//@ loop 1 step @C14 str.notend: charAt(l, old(l.readPosition)) != 0 && charAt(l, old(l.readPosition)) != delim
+//@ loop 1 exit @C13 @C14 str.unterminated: err != nil && (charAt(l, old(l.readPosition)) == 0 || (charAt(l, old(l.readPosition)) == '\\' && charAt(l, old(l.readPosition) + 1) == 0))
+//@ loop 1 decreases @C14 len(l.characters) + 1 - l.readPosition
+
+// regexp literals: backslash takes the next character literally; the closing / may be followed by flags
+//@ func (l *Lexer) readRegexp() (result string, err error)
+//@   requires lexOK(l) && chOK(l) && l.ch == '/'
+//@   modifies l.ch, l.position, l.readPosition, l.line, l.column
+//@   ensures @C14 readregexp.ok: lexOK(l) && chOK(l) && l.readPosition > old(l.readPosition)
+//@   panics never
+//@ loop 1 invariant readregexp.inv: lexOK(l) && l.readPosition <= len(l.characters) + 1 && l.readPosition >= entry(l.readPosition) && (l.readPosition > entry(l.readPosition) || chOK(l))
+//@ loop 1 step @C14 re.plain: charAt(l, old(l.readPosition)) != '\\' ==> out == old(out) + strFromRune(charAt(l, old(l.readPosition))) && l.readPosition == old(l.readPosition) + 1
+//@ loop 1 step @C14 re.escape: charAt(l, old(l.readPosition)) == '\\' ==> out == old(out) + strFromRune(charAt(l, old(l.readPosition) + 1)) && l.readPosition == old(l.readPosition) + 2
+//@ loop 1 step @C14 re.notend: charAt(l, old(l.readPosition)) != 0 && charAt(l, old(l.readPosition)) != '/'
+//@ loop 1 exit @C13 @C14 re.unterminated: err != nil && charAt(l, old(l.readPosition)) != 0 ==> charAt(l, old(l.readPosition)) == '/'
+//@ loop 1 decreases @C14 len(l.characters) + 1 - l.readPosition
+//@ loop 2 invariant readregexp.flags.inv: lexOK(l) && chOK(l) && l.readPosition > entry(l.readPosition)
+//@ loop 2 decreases @C14 len(l.characters) + 1 - l.readPosition
+
+// tokens: every token but EOF consumes input; a / is division exactly after ) ] identifier or number
+//@ func (l *Lexer) NextToken() (result token.Token)
+//@   requires lexOK(l) && chOK(l)
+//@   modifies l.ch, l.position, l.readPosition, l.line, l.column, l.prevToken
+//@   ensures @C14 nexttoken.ok: lexOK(l) && chOK(l) && l.readPosition >= old(l.readPosition)
+//@   ensures @C14 nexttoken.progress: result.Type != token.EOF ==> l.readPosition > old(l.readPosition)
+//@   ensures @C14 nexttoken.division: (result.Type == token.SLASH || result.Type == token.SLASHEQUALS) ==> divisionContext(old(l.prevToken.Type))
+//@   ensures @C14 nexttoken.regexp: result.Type == token.REGEXP ==> !divisionContext(old(l.prevToken.Type))
+//@   decreases @C14 len(l.characters) + 2 - l.readPosition
+//@   panics never
+
+//@ func New(input string) (result *Lexer)
+//@   ensures @C14 new.lexer: result != nil && fresh(result) && lexOK(result) && chOK(result)
+//@   panics never
